@@ -5,10 +5,16 @@ pid = sys.argv[1]
 wt = sys.argv[2] if len(sys.argv) > 2 else f"/tmp/mut/{pid}"
 extra = sys.argv[3] if len(sys.argv) > 3 else ""
 import os
-prev = f"/verif/seeded/{pid}/meta.json"
-if os.path.exists(prev) and "/mut2/" in wt:
-    pm = json.load(open(prev))
-    extra += f"\nAn earlier volunteer already produced this change for the same property: \"{pm.get('summary','')[:400]}\". Produce something DIFFERENT: another mechanism, another part of the code, another kind of trigger.\n"
+prevs = [f"/verif/seeded/{pid}{suf}/meta.json" for suf in ("", "b", "c", "d")]
+prevs = [q for q in prevs if os.path.exists(q)]
+if prevs and ("/mut2/" in wt or "/mut3/" in wt or "/mut4/" in wt):
+    if "/mut2/" in wt:
+        prevs = prevs[:1]
+    extra += "\nEarlier volunteers already produced the following changes for the same property:\n"
+    for q in prevs:
+        pm = json.load(open(q))
+        extra += f" - \"{pm.get('summary','')[:420]}\"\n"
+    extra += "Produce something DIFFERENT from all of these: another mechanism, another part of the code, another kind of trigger.\n"
 extra += "\nIMPORTANT: do NOT use `git stash` (the stash is shared between worktrees and other people are working in sibling worktrees). To test without your change use: `git diff -- src > /tmp/" + pid + "_mine.patch && git checkout -- src && <run demo> ; git apply /tmp/" + pid + "_mine.patch`.\n"
 p = next(json.loads(l) for l in open('/verif/properties.jsonl') if json.loads(l)['id'] == pid)
 print(f"""You are helping test a verification effort for the Rust crate Clarabel.rs (an interior-point conic solver). You have your own scratch git worktree of the repository at {wt} (a detached checkout; work ONLY inside it; never touch /repo or /verif and do not read /verif).
